@@ -522,6 +522,27 @@ impl<'a> Cx<'a> {
     }
 
     fn assign_to(&mut self, target: &Expr, value: Tx, rest: &[Stmt], k: &Kont) -> R<String> {
+        if self.stack_mode() {
+            if let Expr::Unary(u) = target {
+                if matches!(u.op, UnOp::Deref(_)) {
+                    // `*p = v` for a pointer into the boxed array
+                    let p = self.expr(&u.expr, Some(&LT::I("isize")))?;
+                    if p.ty != LT::I("isize") || value.ty != LT::Value {
+                        return self.un("store through something that is not a pointer into the stack's array");
+                    }
+                    if !self.written.contains(&"self.stack".to_string()) {
+                        return self.un("internal: write to `self.stack` missed by the pre-pass");
+                    }
+                    let arr = self.place("self.stack")?;
+                    let mut pre = value.pre;
+                    pre.extend(p.pre);
+                    let v = self.fresh("t");
+                    pre.push(Pre::Bind(v.clone(), format!("(Rs.setIdx {} {} {})", arr.lean, p.term, value.term)));
+                    let body = self.block(rest, k)?;
+                    return Ok(wrap_pre(&pre, format!("(let {} := {};\n  {})", arr.lean, v, body)));
+                }
+            }
+        }
         if let Some((l, i)) = self.elem_alias_of(target) {
             // `*x = v` where `let x = &mut LIST[i];`
             let lv = self.list_lvalue(&l)?;
@@ -1231,6 +1252,12 @@ impl<'a> Cx<'a> {
                     },
                     Expr::Block(b) if semi.is_some() || !is_tail => {
                         let mut stmts = seal(b.block.stmts.clone());
+                        stmts.extend_from_slice(rest);
+                        self.block(&stmts, k)
+                    }
+                    Expr::Unsafe(u) if self.stack_mode() => {
+                        // `unsafe { … }` in stack.rs: the pointer operations inside have their meaning over the boxed array
+                        let mut stmts = if semi.is_some() || !is_tail { seal(u.block.stmts.clone()) } else { u.block.stmts.clone() };
                         stmts.extend_from_slice(rest);
                         self.block(&stmts, k)
                     }
